@@ -60,11 +60,11 @@ func (e *penv) bring(i int, state int) *symConn {
 		return nil
 	}
 	if state >= stOpenConfirm {
-		c.send(openMessageType, e.openBody())
+		c.send(verifMsgOpen, e.openBody())
 		verifQuiesce()
 	}
 	if state >= stEstablished {
-		c.send(keepAliveMessageType, nil)
+		c.send(verifMsgKeepalive, nil)
 		verifQuiesce()
 	}
 	return c
